@@ -2,16 +2,46 @@
   C05 line-protocol driver: evaluates the model of Model.lean with hardware doubles.
   Doubles travel as decimal 64-bit patterns, `nan` stands for any NaN, `u` for "no value".
 
-    soe <mae|rmae|mse|count> <step> <n> (<out|u> <target> <difficulty>)*n  -> fit <v> diff d1 … dn
+    soe <mae|rmae|mse|count> <step> <n> (<out|u> <target> <difficulty>)*n  -> fit <v> diff d1 … dn ;; <gen>
+        the answer of the hand-written model, then (after ` ;; `) the answer obtained with the functors
+        GENERATED from the clang AST (Gen.lean, `FloatOps Float`): `=` when it is the same text
     cnt <n> (<tag> <label> <difficulty>)*n                                   -> fit <v> diff d1 … dn
     gau <classes> <n> (<tag> <sureness> <label> <difficulty>)*n              -> fit <v> diff d1 … dn
     csoe <penalty> <kind> <step> <n> rows…  (constrained evaluator)             -> fitv 2 v1 v2 diff d1 … dn
     ga <value>                                                               -> fitv k v1 … vk
     con <penalty> <k> v1 … vk                                                -> fitv k+1 …
     small <value>                                                            -> 0 | 1
+    dynx <classes> <xslot> <M> <n> (<label> <difficulty> <out|u>*M)*n          -> fit <v> tags (<label> <sureness>)*n diff d1 … dn
+    gaux <classes> <M> <n> rows…     binx <M> <n> rows…                        (same answer shape)
+        the END-TO-END classification evaluators: classifier built from the outputs of the M member
+        programs (1 = an individual), winner-takes-all for a team
+    tev <distinct|fixed|random> <k> <id>*k                                    -> seq <v>*k
+    pen <d|fl|fn|i|l|u|ul|b> <value> <k> v1 … vk  (constrained evaluator, typed penalty) -> fitv k+1 …
+    gac <ptype> <penalty> <objective value>       (constrained evaluator around ga_evaluator)   -> fitv …
+    cpsoe <ptype> <penalty> <kind> <step> <n> rows…  (constrained evaluator, typed penalty)       -> fitv 2 v1 v2 diff …
 -/
-import Vita.C05.Model
+import Vita.C05.Extra
+import Vita.C05.Gen
+import Vita.Common.Rng
 open Vita.C05
+
+@[extern "fma"] opaque cFma : Float → Float → Float → Float
+
+/-- `static_cast<double>(n)` for an unsigned 64-bit `n` (the C conversion: round to nearest) -/
+def natToFloat (n : Nat) : Float := if n < 2 ^ 64 then n.toUInt64.toFloat else Float.ofNat n
+
+/-- `discretization(x, Target(0), max)` of utility/discretization.h with
+    `sigmoid_01(x) = std::fma(std::atan(x), 0.31830988618, 0.5)` -/
+def discFloat (x : Float) (max : Nat) : Nat :=
+  (Float.round (cFma (natToFloat (max - 0)) (cFma (Float.atan x) 0.31830988618 0.5) (natToFloat 0))).toUInt64.toNat
+
+instance : NumC Float :=
+  { (inferInstance : Num Float) with
+    ofNat := natToFloat, half := 0.5, exp := Float.exp, isNaN := Float.isNaN, cut := 10000000.0,
+    disc := discFloat }
+
+/-- `static random::engine_t e; e.seed(dist); e()` as a double -/
+def testRnd (dist : Nat) : Float := ((Vita.Rng.Xo.seed dist.toUInt64).next).1.toFloat
 
 def parseF (s : String) : Option Float :=
   if s == "nan" then some (0.0 / 0.0) else (s.toNat?).map (fun n => Float.ofBits n.toUInt64)
@@ -56,6 +86,39 @@ def parseGau : Nat → List String → Option (List (CEx Float))
     pure (⟨g, s, l, d⟩ :: tl)
   | _, _ => none
 
+def parseO (s : String) : Option (Option Float) :=
+  if s == "u" then some none else (parseF s).map some
+
+/-- rows `<label> <difficulty> <out>*M` -/
+def parseTEx (m : Nat) : Nat → List String → Option (List (Cls.TEx Float))
+  | 0, [] => some []
+  | 0, _ => none
+  | n + 1, l :: d :: rest => do
+    let l ← l.toNat?
+    let d ← d.toNat?
+    if rest.length < m then none else
+    let outs ← (rest.take m).mapM parseO
+    let tl ← parseTEx m n (rest.drop m)
+    pure (⟨outs, l, d⟩ :: tl)
+  | _, _ => none
+
+def showCls (r : List Float × List (CEx Float)) : String :=
+  match r.1 with
+  | [f] => "fit " ++ showF f ++ " tags" ++
+      String.join (r.2.map (fun e => " " ++ toString e.tagLabel ++ " " ++ showF e.sureness)) ++
+      " diff" ++ String.join (r.2.map (fun e => " " ++ toString e.difficulty))
+  | _ => "bad-fit"
+
+def parsePen (ty v : String) : Option (Pen Float) :=
+  match ty with
+  | "d" | "fn" => (parseF v).map .dbl
+  | "fl" => (parseF v).map (fun x => .dbl x.toFloat32.toFloat)
+  | "i" | "l" => v.toInt?.map .int
+  | "u" => v.toNat?.map (.nat 32)
+  | "ul" => v.toNat?.map (.nat 64)
+  | "b" => v.toNat?.map (fun n => .bool (n != 0))
+  | _ => none
+
 def showFit (fit : List Float) (diff : List Nat) : String :=
   match fit with
   | [f] => "fit " ++ showF f ++ " diff" ++ String.join (diff.map (fun d => " " ++ toString d))
@@ -64,6 +127,26 @@ def showFit (fit : List Float) (diff : List Nat) : String :=
 def showFitV (fit : List Float) : String :=
   "fitv " ++ toString fit.length ++ String.join (fit.map (fun f => " " ++ showF f))
 
+/-- `sum_of_errors_impl` with the GENERATED functor and the GENERATED `issmall` (difficulty test):
+    the loop of Model.lean instantiated with them -/
+def genLoop (k : ErrKind) (step : Nat) : List (Ex Float) → Float × List (Ex Float) := fun d =>
+  let rec go : List (Ex Float) → Nat → Float × Float → Float × List (Ex Float)
+    | [], _, s => (s.1, [])
+    | e :: rest, 0, s =>
+      if rest.length + 1 < step then (s.1, e :: rest)
+      else
+        let err := Gen.errF k e.out e.target
+        let r := go rest (step - 1) (meanStep s err)
+        (r.1, (if Gen.issmall err then e else { e with difficulty := e.difficulty + 1 }) :: r.2)
+    | e :: rest, k' + 1, s =>
+      let r := go rest k' s
+      (r.1, e :: r.2)
+  go d 0 (0.0, 0.0)
+
+def genSoe (k : ErrKind) (step : Nat) (d : List (Ex Float)) : String :=
+  let r := genLoop k step d
+  "fit " ++ showF (-r.1) ++ " diff" ++ String.join (r.2.map (fun e => " " ++ toString e.difficulty))
+
 def answer (line : String) : String :=
   match line.trimAscii.toString.splitOn " " with
   | "soe" :: k :: step :: n :: rest =>
@@ -71,7 +154,11 @@ def answer (line : String) : String :=
     | some k, some step, some n =>
       if step == 0 then "bad-op" else
       match parseEx n rest with
-      | some d => let r := sumOfErrors (errF k) step d; showFit r.1 (r.2.map (·.difficulty))
+      | some d =>
+        let r := sumOfErrors (errF k) step d
+        let m := showFit r.1 (r.2.map (·.difficulty))
+        let g := genSoe k step d
+        m ++ " ;; " ++ (if g == m then "=" else g)
       | none => "bad-op"
     | _, _, _ => "bad-op"
   | "csoe" :: p :: k :: step :: n :: rest =>
@@ -81,8 +168,12 @@ def answer (line : String) : String :=
       match parseEx n rest with
       | some d =>
         let r := sumOfErrors (errF k) step d
-        showFitV (constrainedEval p r.1) ++ " diff" ++
+        let m := showFitV (constrainedEval p r.1) ++ " diff" ++
           String.join (r.2.map (fun e => " " ++ toString e.difficulty))
+        let rg := genLoop k step d
+        let g := showFitV (constrainedEval p [-rg.1]) ++ " diff" ++
+          String.join (rg.2.map (fun e => " " ++ toString e.difficulty))
+        m ++ " ;; " ++ (if g == m then "=" else g)
       | none => "bad-op"
     | _, _, _, _ => "bad-op"
   | "cnt" :: n :: rest =>
@@ -109,9 +200,67 @@ def answer (line : String) : String :=
     match parseF p, k.toNat?, rest.mapM parseF with
     | some p, some k, some vs => if vs.length == k then showFitV (constrainedEval p vs) else "bad-op"
     | _, _, _ => "bad-op"
+  | "dynx" :: c :: x :: m :: n :: rest =>
+    match c.toNat?, x.toNat?, m.toNat?, n.toNat? with
+    | some c, some x, some m, some n =>
+      match parseTEx m n rest with
+      | some d => showCls (Cls.dynSlotEvaluator c x m d)
+      | none => "bad-op"
+    | _, _, _, _ => "bad-op"
+  | "gaux" :: c :: m :: n :: rest =>
+    match c.toNat?, m.toNat?, n.toNat? with
+    | some c, some m, some n =>
+      match parseTEx m n rest with
+      | some d => showCls (Cls.gaussianEvaluator c m d)
+      | none => "bad-op"
+    | _, _, _ => "bad-op"
+  | "binx" :: m :: n :: rest =>
+    match m.toNat?, n.toNat? with
+    | some m, some n =>
+      match parseTEx m n rest with
+      | some d => showCls (Cls.binaryEvaluator m d)
+      | none => "bad-op"
+    | _, _ => "bad-op"
+  | "tev" :: k :: n :: rest =>
+    let kind : Option TestKind := match k with
+      | "distinct" => some .distinct | "fixed" => some .fixed | "random" => some .random | _ => none
+    match kind, n.toNat?, rest.mapM String.toNat? with
+    | some kind, some n, some ids =>
+      if ids.length != n then "bad-op" else
+      "seq" ++ String.join ((testRun testRnd kind [] ids).map (fun f =>
+        match f with
+        | [v] => " " ++ showF v
+        | _ => " size=" ++ toString f.length))
+    | _, _, _ => "bad-op"
+  | ["gac", ty, pv, v] =>
+    match parsePen ty pv, parseF v with
+    | some p, some v => showFitV (constrainedEvalP p (gaEval v))
+    | _, _ => "bad-op"
+  | "cpsoe" :: ty :: pv :: k :: step :: n :: rest =>
+    match parsePen ty pv, kindOf k, step.toNat?, n.toNat? with
+    | some p, some k, some step, some n =>
+      if step == 0 then "bad-op" else
+      match parseEx n rest with
+      | some d =>
+        let r := sumOfErrors (errF k) step d
+        let m := showFitV (constrainedEvalP p r.1) ++ " diff" ++
+          String.join (r.2.map (fun e => " " ++ toString e.difficulty))
+        let rg := genLoop k step d
+        let g := showFitV (constrainedEvalP p [-rg.1]) ++ " diff" ++
+          String.join (rg.2.map (fun e => " " ++ toString e.difficulty))
+        m ++ " ;; " ++ (if g == m then "=" else g)
+      | none => "bad-op"
+    | _, _, _, _ => "bad-op"
+  | "pen" :: ty :: v :: k :: rest =>
+    match parsePen ty v, k.toNat?, rest.mapM parseF with
+    | some p, some k, some vs => if vs.length == k then showFitV (constrainedEvalP p vs) else "bad-op"
+    | _, _, _ => "bad-op"
   | ["small", v] =>
     match parseF v with
-    | some v => if issmall v then "1" else "0"
+    | some v =>
+      let m := if issmall v then "1" else "0"
+      let g := if Gen.issmall v then "1" else "0"
+      m ++ " ;; " ++ (if g == m then "=" else g)
     | none => "bad-op"
   | _ => "bad-op"
 
